@@ -26,6 +26,14 @@ def scenario(ctx, i):
         mean = m + r.normal(size=(C, D)) * np.sqrt(v) * (1e-3 if kind == "floor" and i % 8 == 3 else 1.0)
         var = v * r.uniform(0.3, 1.5, (C, D)) * (1e-6 if kind == "floor" else 1.0)
         sts.append(dict(n=n, f=mean * n[:, None], s=(var + mean**2) * n[:, None], t=t))
+    if r.random() < 0.3:  # equal-length segments / hard counts: consecutive statistics share their count vector
+        for s_ in sts[1:]:
+            if r.random() < 0.7:
+                mean_ = s_["f"] / np.maximum(s_["n"], 1e-300)[:, None]
+                var_ = s_["s"] / np.maximum(s_["n"], 1e-300)[:, None] - mean_**2
+                s_["n"] = sts[0]["n"].copy()
+                s_["f"] = mean_ * s_["n"][:, None]
+                s_["s"] = (var_ + mean_**2) * s_["n"][:, None]
     if kind == "zero_in_some" and C > 1:
         sts[0]["n"][0] = 0.0
         sts[0]["f"][0] = 0.0
@@ -40,8 +48,13 @@ def scenario(ctx, i):
     floor = float(10 ** r.uniform(-10, -2)) if kind != "floor" else 1e-3
     if kind == "zero_in_all" and C > 1 and r.random() < 0.6:
         sigma[0] = floor * r.uniform(0.05, 0.9, D)  # a never-observed component that starts below the floor (fit() starts from the unfloored UBM variances)
+    int_params = bool(kind not in ("floor", "zero_in_all") and r.random() < 0.2)
+    if int_params:  # integer-valued T and sigma, handed over as integer-typed arrays (a configuration typed in by hand)
+        T = np.rint(T * 2.0)
+        T[0] = np.where(T[0] == 0, 1.0, T[0])
+        sigma = np.rint(sigma * 2.0) + 1.0
     parts = gen.random_composition(r, ns)
-    return dict(route=["fresh", "fresh", "reused", "reused_sigma", "reused_T"][int(r.integers(0, 5))], kind=kind, C=C, D=D, R=R, w=w, m=m, v=v, T=T, sigma=sigma, sts=sts, parts=parts, update_sigma=True if kind == "floor" else bool((i // 4 + i) % 2 == 0),
+    return dict(int_params=int_params, route=["fresh", "fresh", "reused", "reused_sigma", "reused_T"][int(r.integers(0, 5))], kind=kind, C=C, D=D, R=R, w=w, m=m, v=v, T=T, sigma=sigma, sts=sts, parts=parts, update_sigma=True if kind == "floor" else bool((i // 4 + i) % 2 == 0),
                 floor=floor, iters=int(r.integers(1, 4)), seed=int(r.integers(0, 10**6)))
 
 
@@ -80,6 +93,9 @@ def mk_machine(sc, iters=1):
             return iv
     iv.T = np.array(sc["T"], dtype=float)
     iv.sigma = np.array(sc["sigma"], dtype=float)
+    if sc.get("int_params"):
+        iv.T = np.array(sc["T"]).astype(np.int64)
+        iv.sigma = np.array(sc["sigma"]).astype(np.int64)
     return iv
 
 
@@ -109,7 +125,7 @@ def correspondence(ctx):
         ctx.count("update_sigma" if sc["update_sigma"] else "fixed_sigma")
         ctx.case([core.tolist(sc["T"]), core.tolist([s["f"] for s in sc["sts"]]), sc["update_sigma"], sc["floor"]], nontrivial=len(sc["sts"]) >= 2 and C * D >= 2,
                  sample={"kind": sc["kind"], "C": C, "D": D, "R": R, "statistics": len(sc["sts"]), "partitions": sc["parts"], "update_sigma": sc["update_sigma"]})
-        inp = {k: sc[k] for k in ("kind", "route", "C", "D", "R", "w", "m", "v", "T", "sigma", "sts", "parts", "update_sigma", "floor", "iters", "seed")}
+        inp = {k: sc[k] for k in ("kind", "route", "int_params", "C", "D", "R", "w", "m", "v", "T", "sigma", "sts", "parts", "update_sigma", "floor", "iters", "seed")}
         iv = mk_machine(sc)
         sts = [mk_stats(sc, s) for s in sc["sts"]]
         pr = core.impl(lambda: np.array([iv.project(s) for s in sts], dtype=float))
@@ -216,7 +232,7 @@ def validity_oracle(ctx, i):
     sc["update_sigma"] = True
     f = oracle(sc, 3)
     if f and f["sig"] in ("non-finite-ivector-parameters", "sigma-below-floor", "ivector-step-raises"):
-        f["input"] = {**{k: sc[k] for k in ("kind", "route", "C", "D", "R", "w", "m", "v", "T", "sigma", "sts", "parts", "update_sigma", "floor", "iters", "seed")}, "trainer": "ivector"}
+        f["input"] = {**{k: sc[k] for k in ("kind", "route", "int_params", "C", "D", "R", "w", "m", "v", "T", "sigma", "sts", "parts", "update_sigma", "floor", "iters", "seed")}, "trainer": "ivector"}
         return f
     return None
 
@@ -241,7 +257,7 @@ def search(ctx):
         f = oracle(sc, 3 if ctx.tier == "quick" else 6)
         if f and f["sig"] not in seen:
             seen.add(f["sig"])
-            f["input"] = {k: sc[k] for k in ("kind", "route", "C", "D", "R", "w", "m", "v", "T", "sigma", "sts", "parts", "update_sigma", "floor", "iters", "seed")}
+            f["input"] = {k: sc[k] for k in ("kind", "route", "int_params", "C", "D", "R", "w", "m", "v", "T", "sigma", "sts", "parts", "update_sigma", "floor", "iters", "seed")}
             fails.append(f)
     return fails
 
